@@ -728,6 +728,10 @@ class SocketClient:
                 z = tasks.get(timeout=0.1)
             except queue.Empty:
                 if t.done():
+                    if not tasks.empty():
+                        # `t` has delivered more elements and finished since the `get` above timed out;
+                        # take them before looking at how `t` ended.
+                        continue
                     if t.exception():
                         raise t.exception()
                     if not self._to_shutdown.is_set():
